@@ -3,7 +3,10 @@
 //! Programs: every .sc file of the given directories through the real pipeline, then `n` programs
 //! of the direct linear generators (print-free).  Output per case:
 //!   (all <rv> <x86> <a64>)   with <rv> = ((codes..) nargs "text") | (PANIC ..), others ((codes..) nargs) | (PANIC ..)
-use crate::{catch, cmd_backend::linear_programs, gen_rvmini, sexp::dbg};
+use crate::{catch, cmd_backend::linear_programs, gen_axlin, gen_rvmini, sexp::dbg};
+use axcut::syntax::statements::{Clause, Create, IfC, Let, Literal, Op, Substitute, Switch};
+use axcut::syntax::{Prog, Statement};
+use std::rc::Rc;
 use axcut2backend::coder::compile;
 use std::io::Write;
 
@@ -22,11 +25,35 @@ fn tuples(rng: &mut crate::rng::Rng, arity: usize) -> String {
     tuples
 }
 
+/// remove every print statement (a print leaves the context unchanged, so the program stays linear)
+fn strip_prints(s: &Statement) -> Statement {
+    let cls = |cs: &Vec<Clause>| cs.iter().map(|c| Clause { xtor: c.xtor.clone(), context: c.context.clone(), body: Rc::new(strip_prints(&c.body)) }).collect::<Vec<_>>();
+    match s {
+        Statement::PrintI64(x) => strip_prints(&x.next),
+        Statement::Substitute(x) => Statement::Substitute(Substitute { rearrange: x.rearrange.clone(), next: Rc::new(strip_prints(&x.next)) }),
+        Statement::Let(x) => Statement::Let(Let { next: Rc::new(strip_prints(&x.next)), ..x.clone() }),
+        Statement::Switch(x) => Statement::Switch(Switch { clauses: cls(&x.clauses), ..x.clone() }),
+        Statement::Create(x) => Statement::Create(Create { clauses: cls(&x.clauses), next: Rc::new(strip_prints(&x.next)), ..x.clone() }),
+        Statement::Literal(x) => Statement::Literal(Literal { next: Rc::new(strip_prints(&x.next)), ..x.clone() }),
+        Statement::Op(x) => Statement::Op(Op { next: Rc::new(strip_prints(&x.next)), ..x.clone() }),
+        Statement::IfC(x) => Statement::IfC(IfC { thenc: Rc::new(strip_prints(&x.thenc)), elsec: Rc::new(strip_prints(&x.elsec)), ..x.clone() }),
+        other => other.clone(),
+    }
+}
+fn strip_prog(p: &Prog) -> Prog {
+    Prog { defs: p.defs.iter().map(|d| axcut::syntax::Def { name: d.name.clone(), context: d.context.clone(), body: strip_prints(&d.body) }).collect(), types: p.types.clone(), max_id: p.max_id }
+}
+
 pub fn cmd_codegen_all(seed: u64, n: usize, out: &mut dyn Write, dirs: &[String]) {
+    // `--rv-only` as first extra argument: only the RISC-V result is emitted (shape of `codegen-rv`)
+    let rv_only = dirs.first().map(|d| d == "--rv-only").unwrap_or(false);
+    let dirs = if rv_only { &dirs[1..] } else { dirs };
     let mut progs: Vec<(String, axcut::syntax::Prog)> = if dirs.len() == 1 && dirs[0] == "-" { Vec::new() } else { linear_programs(dirs) };
     let mut rng = crate::rng::Rng::new(seed);
     let mut rejected = 0usize;
-    for g in 0..n {
+    // two thirds of the generated programs come from the mini generator, one third from gen_axlin (prints removed)
+    let n_ax = n / 3;
+    for g in 0..(n - n_ax) {
         let mut r = rng.fork();
         // mostly within the capacity of the RISC-V back end (14), sometimes beyond it
         let cap = match r.below(12) { 0 => 16, 1 => 15, 2 | 3 => 8, _ => 14 };
@@ -37,6 +64,15 @@ pub fn cmd_codegen_all(seed: u64, n: usize, out: &mut dyn Write, dirs: &[String]
         match gen_rvmini::check(&p) {
             Ok(_) => progs.push((format!("gen:{seed}:{g}:cap{cap}"), p)),
             Err(e) => { rejected += 1; if std::env::var("VERIF_GEN_DEBUG").is_ok() { eprintln!("gen {g}: {e}"); } }
+        }
+    }
+    for (k, (name, p)) in gen_axlin::programs(seed, n_ax, &gen_axlin::Cfg { max_args: 5, max_live: 14 }).into_iter().enumerate() {
+        // one in twelve keeps the generator's own (larger) live-variable targets: beyond the RISC-V capacity
+        let p = if k % 12 == 11 { gen_axlin::gen_program(&mut crate::rng::Rng::new(seed.wrapping_mul(7919).wrapping_add(k as u64)), &gen_axlin::Cfg { max_args: 5, max_live: 40 }) } else { p };
+        let p = strip_prog(&p);
+        match gen_rvmini::check(&p) {
+            Ok(_) => progs.push((format!("axlin:{name}"), p)),
+            Err(e) => { rejected += 1; if std::env::var("VERIF_GEN_DEBUG").is_ok() { eprintln!("axlin {k}: {e}"); } }
         }
     }
     if rejected > 0 { eprintln!("codegen-all: {rejected} generated programs rejected by the linear checker"); }
@@ -54,6 +90,7 @@ pub fn cmd_codegen_all(seed: u64, n: usize, out: &mut dyn Write, dirs: &[String]
             let text = axcut2rv64::into_routine::into_rv64_routine(a);
             format!("({} {} {})", is, n, crate::sexp::quote(&text))
         });
+        if rv_only { writeln!(out, "(case {k} {input} {rv})").unwrap(); continue; }
         let p2 = prog.clone();
         let x86 = catch(move || {
             let a = compile::<axcut2x86_64::Backend, _, _, _>(p2);
